@@ -300,10 +300,13 @@ func runC12(w *fw.Worker) {
 				for i := range s.keys {
 					ord = append(ord, i)
 				}
+				m0 := pt.V("m")
 				mk := pt.Func{Name: "mk", Ret: tNumMap, Body: []pt.Stmt{pt.Return{X: s.lit(ord)}}}
 				re := []pt.Stmt{mk, pt.InferDecl{Name: "m", X: pt.C("mk")}}
 				re = append(re, op.build(s, "1")...)
-				re = append(re, pt.InferDecl{Name: "fresh", X: pt.C("mk")}, pt.Print(pt.S("fresh"), pt.V("fresh"), pt.C("len", pt.V("fresh"))),
+				re = append(re, pt.Assign{Target: pt.Index{X: m0, I: pt.S("w")}, X: pt.N(8)},
+					pt.InferDecl{Name: "fresh", X: pt.C("mk")}, pt.Print(pt.S("fresh"), pt.V("fresh"), pt.C("len", pt.V("fresh"))),
+					pt.Assign{Target: pt.Index{X: pt.V("fresh"), I: pt.S("t")}, X: pt.N(9)}, pt.Print(pt.S("both"), m0, pt.V("fresh")),
 					pt.For{Var: "fk", Range: []pt.Expr{pt.V("fresh")}, Body: []pt.Stmt{pt.Print(pt.S("fk"), pt.V("fk"))}})
 				exec("literal-reeval", true, re)
 			}
